@@ -360,6 +360,10 @@ func checkRowMapping(c *Ctx, rule string) {
 			if !isSel {
 				if v := identVar(dest); v != nil {
 					got = varTiedField(v, s.Decl)
+					if got == "" {
+						// the scanned variable is handed to a function of the package that fills the envelope from it
+						got = argPassedTiedField(p, info, v, s.Decl, varTiedField)
+					}
 				}
 			}
 			if got != want && !(got == "" && (name == "id" || name == "route" || name == "target")) {
@@ -697,4 +701,51 @@ func (p *Program) globalMapKeys(g *ssa.Global) []string {
 		return nil
 	}
 	return keys
+}
+
+// argPassedTiedField: v is passed (as a plain identifier) to a function of the package in decl; the envelope field
+// the corresponding parameter is tied to there (all such calls must agree).
+func argPassedTiedField(p *Program, info *types.Info, v *types.Var, decl *types.Func, tied func(*types.Var, *types.Func) string) string {
+	fd, _ := p.funcDecl(decl)
+	if fd == nil {
+		return ""
+	}
+	agreed := ""
+	conflict := false
+	ast.Inspect(fd, func(n ast.Node) bool {
+		ce, ok := n.(*ast.CallExpr)
+		if !ok {
+			return true
+		}
+		var callee *types.Func
+		switch f := ce.Fun.(type) {
+		case *ast.Ident:
+			callee, _ = info.Uses[f].(*types.Func)
+		case *ast.SelectorExpr:
+			callee, _ = info.Uses[f.Sel].(*types.Func)
+		}
+		if callee == nil || decl.Pkg() == nil || callee.Pkg() != decl.Pkg() {
+			return true
+		}
+		sig := callee.Type().(*types.Signature)
+		for i, a := range ce.Args {
+			id, ok := ast.Unparen(a).(*ast.Ident)
+			if !ok || info.Uses[id] != v || i >= sig.Params().Len() {
+				continue
+			}
+			got := tied(sig.Params().At(i), callee)
+			if got == "" {
+				continue
+			}
+			if agreed != "" && agreed != got {
+				conflict = true
+			}
+			agreed = got
+		}
+		return true
+	})
+	if conflict {
+		return ""
+	}
+	return agreed
 }
